@@ -388,3 +388,28 @@ theorem stable_of_topo (S : Nat → List Nat) (edges : Nat → List (Nat × R)) 
 
 end stable
 end Qeep
+
+namespace Qeep
+
+/-- a visit only adds to the visited list -/
+theorem visit_mono (S : Nat → List Nat) : ∀ (f n : Nat) (done : List Nat) (z : Nat), z ∈ done → z ∈ visit S f n done
+  | 0, _, _, _, h => h
+  | f + 1, n, done, z, h => by
+    unfold visit
+    split
+    · exact h
+    · apply List.mem_cons_of_mem
+      have : ∀ (cs : List Nat) (d : List Nat), z ∈ d → z ∈ cs.foldl (fun d c => visit S f c d) d := by
+        intro cs
+        induction cs with
+        | nil => intro d h; exact h
+        | cons c cs ih => intro d h; simp only [List.foldl_cons]; exact ih _ (visit_mono S f c d z h)
+      exact this _ _ h
+
+theorem fold_visit_mono (S : Nat → List Nat) (f : Nat) (cs : List Nat) (d : List Nat) (z : Nat) (h : z ∈ d) :
+    z ∈ cs.foldl (fun d c => visit S f c d) d := by
+  induction cs generalizing d with
+  | nil => exact h
+  | cons c cs ih => simp only [List.foldl_cons]; exact ih _ (visit_mono S f c d z h)
+
+end Qeep
